@@ -21,6 +21,7 @@ import (
 	"bytes"
 	"context"
 	"fmt"
+	"math"
 	"path"
 	"sort"
 	"strconv"
@@ -291,7 +292,7 @@ func (s *shard) search(ctx context.Context, q index.Query, orderBy *propertyv1.Q
 		}()
 	}
 	if orderBy == nil {
-		ss, searchErr := s.store.Search(ctx, projection, q, limit)
+		ss, searchErr := s.searchLiveLimited(ctx, q, limit)
 		if searchErr != nil {
 			return nil, searchErr
 		}
@@ -354,6 +355,38 @@ func (s *shard) search(ctx context.Context, q index.Query, orderBy *propertyv1.Q
 		})
 	}
 	return data, nil
+}
+
+// searchLiveLimited searches the documents matching q until limit live (not deleted) documents
+// are collected or the matches are exhausted. The tombstoned revisions, which are kept until they
+// expire, are still returned but never count against the limit, otherwise they would crowd the
+// live properties out of the result.
+func (s *shard) searchLiveLimited(ctx context.Context, q index.Query, limit int) ([]index.SeriesDocument, error) {
+	fetch := limit
+	for {
+		ss, err := s.store.Search(ctx, projection, q, fetch)
+		if err != nil {
+			return nil, err
+		}
+		if fetch <= 0 || len(ss) < fetch {
+			return ss, nil
+		}
+		live := 0
+		for i := range ss {
+			if deleted := ss[i].Fields[deleteField]; deleted != nil && convert.BytesToInt64(deleted) > 0 {
+				continue
+			}
+			live++
+			if live >= limit {
+				return ss[:i+1], nil
+			}
+		}
+		if fetch > math.MaxInt/2 {
+			fetch = 0
+		} else {
+			fetch *= 2
+		}
+	}
 }
 
 func (s *shard) repair(ctx context.Context, id []byte, property *propertyv1.Property, deleteTime int64) (updated bool, selfNewer *queryProperty, err error) {
